@@ -275,6 +275,7 @@ func (s *Sim) Do(a *Action) *chain.TxResult {
 	post := s.C.Snap()
 	s.Last = post
 	s.resched(post)
+	s.labelDebts(pre, post)
 	for _, o := range s.Oracles {
 		o.AfterAction(s, a, pre, post, res)
 	}
@@ -433,6 +434,23 @@ func (s *Sim) labelBoundary(prev, cur *chain.Snapshot) {
 	for id := range prev.Metas {
 		if _, ok := cur.Metas[id]; !ok {
 			s.Label("model-expired")
+		}
+	}
+	s.labelDebts(prev, cur)
+}
+
+func (s *Sim) labelDebts(prev, cur *chain.Snapshot) {
+	for sp, d := range cur.Debts {
+		p, ok := prev.Debts[sp]
+		if !ok || d.Debt.Amount.GT(p.Debt.Amount) {
+			s.Label("debt-created")
+		} else if d.Debt.Amount.LT(p.Debt.Amount) {
+			s.Label("debt-repaid")
+		}
+	}
+	for sp := range prev.Debts {
+		if _, ok := cur.Debts[sp]; !ok {
+			s.Label("debt-repaid")
 		}
 	}
 }
